@@ -56,6 +56,8 @@ type ClientSession struct {
 
 	disposeOnce sync.Once
 	authInfo    AuthInfo
+	// 由于auth而重连的次数
+	authReconnectCount int
 }
 
 type AuthInfo struct {
@@ -104,6 +106,9 @@ var defaultClientSessOption = ClientSessionOption{
 }
 
 type ModClientSessionOption func(option *ClientSessionOption)
+
+// maxAuthReconnectCount 一个ClientSession由于auth失败而重连的最大次数
+const maxAuthReconnectCount = 2
 
 // NewClientSession @param t: session的类型，只能是推或者拉
 func NewClientSession(sessionType base.SessionType, modOptions ...ModClientSessionOption) *ClientSession {
@@ -494,7 +499,13 @@ func (s *ClientSession) parseAuthorityInfo(auth string) {
 }
 
 func (s *ClientSession) dealErrorMessage(description string) (err error) {
+	// adobe auth最多需要重连两次（一次获取challenge，一次携带response），
+	// 限制重连次数，避免对端一直返回need auth导致无限重连（每次重连都是在上一次的读循环中嵌套调用）
+	if s.authReconnectCount >= maxAuthReconnectCount {
+		return fmt.Errorf("too many auth reconnect. count=%d, message: %s", s.authReconnectCount, description)
+	}
 	if strings.Contains(description, "code=403 need auth") {
+		s.authReconnectCount++
 		// app和tcUrl需要加上streamid、authmod、user
 		s.urlCtx.PathWithoutLastItem = fmt.Sprintf("%s/%s?authmod=adobe&user=%s", s.urlCtx.PathWithoutLastItem, s.urlCtx.LastItemOfPath, s.urlCtx.Username)
 
@@ -525,6 +536,7 @@ func (s *ClientSession) dealErrorMessage(description string) (err error) {
 			s.urlCtx.PathWithoutLastItem = fmt.Sprintf("%s&challenge=%s&response=%s&opaque=%s", s.urlCtx.PathWithoutLastItem, s.authInfo.challenge, response, s.authInfo.opaque)
 
 			// 关闭前一个连接并发起新的连接
+			s.authReconnectCount++
 			s.conn.Close()
 			s.connect()
 		}
